@@ -103,7 +103,10 @@ def address_from_bytes(b):
     if a[0] == 0:
         if a[1] > 3:
             raise ParseError('bad implicit tag')
-    elif a[0] in (1, 2, 3):
+    elif a[0] in (2, 4):
+        # tx rollup (removed from the protocol) / zk rollup destinations: acceptance is not certain
+        raise Uncertain('rollup address kind %d' % a[0])
+    elif a[0] in (1, 3):
         if a[21] != 0:
             raise ParseError('bad padding')
     else:
